@@ -236,10 +236,20 @@ fn looks_typed(tok: &str) -> Option<bool> {
     if is_yaml12_float(tok) || special_float(tok).is_some() {
         return Some(true);
     }
-    if !tok.is_empty() && tok.chars().all(|c| c.is_ascii_alphabetic()) && !["inf", "nan", "infinity"].contains(&tok.to_ascii_lowercase().as_str()) {
+    if !tok.is_empty() && tok.chars().all(|c| c.is_ascii_alphabetic()) {
+        // (incl. `inf`, `nan`, `infinity`: the documented float specials are the dotted forms only)
+        return Some(false);
+    }
+    if rust_only_float_word(tok) {
         return Some(false);
     }
     None
+}
+
+/// `inf`, `infinity`, `nan` with an optional sign, in any case: accepted by Rust's float parser, not YAML floats
+fn rust_only_float_word(tok: &str) -> bool {
+    let t = tok.strip_prefix(['+', '-']).unwrap_or(tok).to_ascii_lowercase();
+    ["inf", "infinity", "nan"].contains(&t.as_str())
 }
 
 pub fn expected(c: &Case, o: &Opts) -> Exp {
@@ -277,7 +287,7 @@ pub fn expected(c: &Case, o: &Opts) -> Exp {
                             let t = tok.trim_start_matches(['+', '-']);
                             t.len() > 1 && t.starts_with('0') && t.as_bytes()[1].is_ascii_digit()
                         };
-                        if plain && untagged && canonical && tok.trim() == tok && (!leading_zero || o.legacy_octal) && !(neg && mag == Some(0) && c.target >= 5) {
+                        if plain && untagged && canonical && tok.trim() == tok && (!leading_zero || o.legacy_octal) {
                             Exp::Accept(v)
                         } else if leading_zero {
                             // decimal-with-leading-zero vs legacy octal: only "if accepted, one of the two exact readings"
@@ -307,7 +317,9 @@ pub fn expected(c: &Case, o: &Opts) -> Exp {
                     }
                 }
                 None => {
-                    if looks_typed(t) == Some(false) && plain && untagged {
+                    if rust_only_float_word(t) {
+                        Exp::Unspec // a float target taking `inf` / `nan` without the dot is leniency the tables do not mention
+                    } else if looks_typed(t) == Some(false) && plain && untagged {
                         Exp::Reject
                     } else {
                         Exp::Unspec
@@ -426,10 +438,14 @@ pub fn expected(c: &Case, o: &Opts) -> Exp {
         }
         19 => {
             // untyped
-            if !untagged {
+            if matches!(c.style, Style::Literal | Style::Folded) {
                 return Exp::Unspec;
             }
-            if matches!(c.style, Style::Literal | Style::Folded) {
+            if c.tag.as_deref() == Some("!!str") {
+                // the tag forces the string reading whatever the text looks like
+                return Exp::Accept(format!("{:?}", Tree::s(tok)));
+            }
+            if !untagged {
                 return Exp::Unspec;
             }
             if !plain {
